@@ -203,10 +203,12 @@ func (m *Machine) fieldAddr(x Ptr, field int, st *types.Struct) Ptr {
 	if x.bad != "" {
 		m.goPanic("runtime error: invalid memory address (unsafe pointer arithmetic: " + x.bad + ")")
 	}
+	if x.p == nil && x.idx != nil {
+		// fork over the feasible element indexes
+		i := m.concretize(x.idx, "element index for field address")
+		x = Ptr{obj: x.obj, p: &x.arr[i], arr: x.arr[i:]}
+	}
 	if x.p == nil {
-		if x.idx != nil {
-			m.unsupported("field address through symbolic element pointer")
-		}
 		m.goPanic("runtime error: invalid memory address or nil pointer dereference")
 	}
 	s, ok := (*x.p).(Struct)
